@@ -46,6 +46,18 @@ func runC16(r *Run) {
 		}
 	}
 	r.RunTaskGroup(fmt.Sprintf("parallel commit / preload, preemption bound %d", pre), "sched", args)
+	// every pending write set reachable inside a bounded universe, not only the corpus: both commits, 2 workers
+	epre, edepth := 1, 3
+	if r.Thorough() {
+		epre, edepth = 2, 4
+	}
+	if batches := exploredCommitBatches(r, edepth, 24); batches != nil {
+		args = nil
+		for _, b := range batches {
+			args = append(args, schedArg{Scenario: "commit", Workers: 2, Batch: b, Bounds: schedBounds{Preempt: epre}, Budget: budget})
+		}
+		r.RunTaskGroup(fmt.Sprintf("parallel commit over every explored write set (depth %d), preemption bound %d", edepth, epre), "sched", args)
+	}
 	args = nil
 	for v := range clientSets {
 		args = append(args, schedArg{Scenario: "clients", Variant: v, Bounds: schedBounds{Preempt: pre}, Budget: budget})
@@ -81,6 +93,18 @@ func runC04(r *Run) {
 		}
 	}
 	r.RunTaskGroup(fmt.Sprintf("commit: interleavings (<=%d preemptions) x map orders (<=%d deviations)", pre, mo), "sched", args)
+	// every pending write set reachable inside a bounded universe: both commits, 2 workers, one deviation of each kind
+	edev, edepth := 1, 3
+	if r.Thorough() {
+		edev, edepth = 2, 4
+	}
+	if batches := exploredCommitBatches(r, edepth, 24); batches != nil {
+		args = nil
+		for _, b := range batches {
+			args = append(args, schedArg{Scenario: "commit", Workers: 2, Batch: b, Bounds: schedBounds{Preempt: edev - 1, MapOrder: edev}, Budget: budget, Strict: true})
+		}
+		r.RunTaskGroup(fmt.Sprintf("commit over every explored write set (depth %d): <=%d preemptions x <=%d map-order deviations", edepth, edev-1, edev), "sched", args)
+	}
 	args = nil
 	for v := 0; v < 3; v++ {
 		args = append(args, schedArg{Scenario: "arrayshift", Variant: v, Bounds: schedBounds{Preempt: 0, MapOrder: 4}, Budget: budget})
@@ -88,6 +112,41 @@ func runC04(r *Run) {
 	r.RunTaskGroup("array index shifting under all map orders", "sched", args)
 	reportBounds(r, pre)
 	crossProcess(r)
+}
+
+// exploredCommitBatches enumerates the distinct states (canonical key incl. which storage layer holds each slab) of
+// the mixed universe — persistent array + map + temporary-address array, nested children, values too large to
+// inline, commits as alphabet operations — up to the given depth and returns their histories in batches.
+func exploredCommitBatches(r *Run, depth, size int) [][][]Op {
+	spec := Spec{Name: "writesets-mixed", Prop: r.ID, Kind: "mixed", T: 256, L: 3, Keys: 2, Classes: []string{"t", "limA+", "A"},
+		Oracles: []string{"ev:commit1"}, Depth: depth, Extra: map[string]int{"temp": 1, "collect": 1}}
+	st, found, err := Explore(r.Pool, spec, r.Deadline(), 3)
+	if err != nil {
+		r.HarnessErr = err
+		return nil
+	}
+	r.Found = append(r.Found, found...)
+	seed := []Op{{K: "newarr"}, {K: "newmap"}, {K: "newarr", N: 1}}
+	var batches [][][]Op
+	var cur [][]Op
+	n := 0
+	for _, p := range st.Paths {
+		if len(p) == 0 || p[len(p)-1].K == "commit" {
+			continue
+		}
+		cur = append(cur, append(append([]Op{}, seed...), p...))
+		n++
+		if len(cur) == size {
+			batches = append(batches, cur)
+			cur = nil
+		}
+	}
+	if len(cur) > 0 {
+		batches = append(batches, cur)
+	}
+	r.Extra["explored_write_set_histories"] = n
+	fmt.Printf("  explored write sets: %d states, %d histories with operations after the last commit\n", st.States, n)
+	return batches
 }
 
 func init() {
